@@ -33,7 +33,7 @@ man = {
         "add_only": True,
     },
     "engines": [
-        {"name": "kweave", "path": "/verif/weave", "serves_properties": sorted(P.PROPS), "kind_free_text": "syn/span based extractor: copies real function text from /repo/src, inserts ghost-only contract text, applies the declared exec rewrites X1-X10, audits byte fidelity"},
+        {"name": "kweave", "path": "/verif/weave", "serves_properties": sorted(P.PROPS), "kind_free_text": "syn/span based extractor: copies real function text from /repo/src, inserts ghost-only contract text, applies the declared exec rewrites X1-X14, audits byte fidelity"},
         {"name": "verus", "path": "/usr/local/bin/verus", "serves_properties": sorted(P.PROPS), "kind_free_text": "deductive verifier (SMT/Z3), single-file mode on the woven units"},
         {"name": "kani", "path": "/verif/kani/harness.rs", "serves_properties": ["C01", "C04", "C05", "C09", "C12", "C16"], "kind_free_text": "Kani 0.68 / CBMC 6.11 function-level harnesses K1 (pointer.rs), K2 (signal.rs sequential protocol), K4 (layout): loop-free over kani::any(), complete per type instance; K3 bounded (thorough tier); counter-examples replayed natively by cargo kani playback"},
         {"name": "glue", "path": "/verif/contracts/glue_u1_u2.rs", "serves_properties": ["C04", "C13", "C15", "C16"], "kind_free_text": "hand-written Verus lemmas: contracts proved in unit U2 imply contracts assumed in unit U1 (given the protocol axiom R2a)"},
